@@ -601,7 +601,7 @@ class Interp:
             ev = Ev("yield_from", value=Term("rec", (fi.qualname, g.env.locals.copy()), self.ctx.new_id()))
             g.events, g.terminal, g.ran = [ev], None, True
             return g.events, None
-        if fi.qualname in self.active:
+        if sum(1 for q in self.active if q == fi.qualname) > 12:
             raise Unsupported(f"unbounded recursion through generator {fi.qualname}")
         events: List[Ev] = []
         fr: Frame = g.env
